@@ -370,6 +370,11 @@ func (v *aStruct) emitEq(r Value) (insts []wat.Inst, ok bool) {
 		}
 	}
 
+	// 没有成员的结构体(空结构体, [0]T)总是相等
+	if len(v.typ.fields) == 0 {
+		insts = append(insts, wat.NewInstConst(wat.I32{}, "1"))
+	}
+
 	ok = true
 
 	return
@@ -395,6 +400,11 @@ func (v *aStruct) emitCompare(r Value) (insts []wat.Inst) {
 		}
 
 		block.Insts = append(block.Insts, t1.emitCompare(t2)...)
+	}
+
+	// 没有成员时比较结果为相等(0)
+	if len(v.typ.fields) == 0 {
+		block.Insts = append(block.Insts, wat.NewInstConst(wat.I32{}, "0"))
 	}
 
 	insts = append(insts, block)
